@@ -52,3 +52,64 @@ func Verif_C29_lockset() {
 	verifRaceCheck()
 	verifReach("end")
 }
+
+// Index consistency through the public API: after every operation, a header is found by hash exactly
+// when it is listed under its shard and nonce, and the per-shard counts equal the number of stored headers.
+func Verif_C29_indexes() {
+	pool, _ := NewHeadersPool(config.HeadersPoolConfig{MaxHeadersPerShard: verifParam("maxPerShard"), NumElementsToRemoveOnEviction: 1})
+	hashes := [][]byte{[]byte("h0"), []byte("h1"), []byte("h2")}[:verifParam("hashes")]
+	shards := []uint32{0, 1}
+	nonces := []uint64{5, 6}
+	steps := verifParam("steps")
+	for s := 0; s < steps; s++ {
+		h := hashes[verifChoice("hash", len(hashes))]
+		n := nonces[verifChoice("nonce", len(nonces))]
+		sh := shards[verifChoice("shard", len(shards))]
+		switch verifChoice("op", 3) {
+		case 0:
+			pool.AddHeader(h, &block.Header{Nonce: n, ShardID: sh})
+		case 1:
+			pool.RemoveHeaderByHash(h)
+		case 2:
+			pool.RemoveHeaderByNonceAndShardId(n, sh)
+		}
+		total := 0
+		for _, shard := range shards {
+			inShard := 0
+			for _, nonce := range nonces {
+				_, listed, err := pool.GetHeadersByNonceAndShardId(nonce, shard)
+				if err != nil {
+					listed = nil
+				}
+				for i, a := range listed {
+					for j := 0; j < i; j++ {
+						verifAssert(string(listed[j]) != string(a), "a header is listed once under its nonce")
+					}
+					hdr, errH := pool.GetHeaderByHash(a)
+					verifAssert(errH == nil && hdr != nil, "a header listed under shard and nonce is found by hash")
+					if errH == nil && hdr != nil {
+						verifAssert(hdr.GetNonce() == nonce && hdr.GetShardID() == shard, "and it is the header of that shard and nonce")
+					}
+				}
+				inShard += len(listed)
+			}
+			verifAssert(pool.GetNumHeaders(shard) == inShard, "the per-shard count equals the number of stored headers")
+			total += inShard
+		}
+		verifAssert(pool.Len() == total, "the total count equals the number of stored headers")
+		for _, hh := range hashes {
+			hdr, err := pool.GetHeaderByHash(hh)
+			if err == nil && hdr != nil {
+				_, listed, err2 := pool.GetHeadersByNonceAndShardId(hdr.GetNonce(), hdr.GetShardID())
+				found := false
+				if err2 == nil {
+					for _, a := range listed {
+						found = found || string(a) == string(hh)
+					}
+				}
+				verifAssert(found, "a header found by hash is listed under its shard and nonce")
+			}
+		}
+	}
+	verifReach("end")
+}
